@@ -27,6 +27,11 @@ class SimCrash(BaseException):
     """The simulated process dies at this I/O event (only SimFS content survives)."""
 
 
+class SimInterrupt(KeyboardInterrupt):
+    """^C delivered at this I/O event: the operation is abandoned, the process (and every open handle,
+    which CPython then closes and flushes while unwinding) lives on."""
+
+
 _REAL = {
     "open": builtins.open,
     "stat": os.stat,
@@ -40,12 +45,23 @@ _REAL = {
     "rename": os.rename,
     "rmdir": os.rmdir,
     "access": os.access,
+    "os_open": os.open,
+    "fdopen": os.fdopen,
+    "os_close": os.close,
+    "os_write": os.write,
+    "os_read": os.read,
+    "fsync": os.fsync,
+    "ftruncate": os.ftruncate,
+    "lseek": os.lseek,
+    "fstat": os.fstat,
     "webbrowser_get": webbrowser.get,
 }
+FD_BASE = 1 << 20      # simulated file descriptors live above any real one
 
 WRITE_EVENTS = ("write",)
 FAULT_MATCH = {
     "crash": None,                       # any event
+    "interrupt": None,                   # any event
     "eio_write": ("write",),
     "enospc_write": ("write",),
     "short_write": ("write",),
@@ -57,6 +73,20 @@ FAULT_MATCH = {
     "short_read": ("read",),
     "eio_close": ("close_w",),
 }
+
+
+class _DetNames:
+    """deterministic replacement for tempfile's random name sequence"""
+
+    def __init__(self):
+        self.n = 0
+
+    def __iter__(self):
+        return self
+
+    def __next__(self):
+        self.n += 1
+        return "sim%06d" % self.n
 
 
 class Node:
@@ -166,9 +196,19 @@ class SimRaw(io.RawIOBase):
                 self.fs.handles.remove(self)
             except ValueError:
                 pass
+            for fd in [fd for fd, r in self.fs.fds.items() if r is self]:
+                del self.fs.fds[fd]
 
     def fileno(self):
-        raise io.UnsupportedOperation("SimFS files have no file descriptor")
+        # a simulated descriptor, so that os.fsync(f.fileno()) / os.fstat(f.fileno()) reach SimFS
+        for fd, r in self.fs.fds.items():
+            if r is self:
+                return fd
+        fd = FD_BASE + len(self.fs.fds) + 1
+        while fd in self.fs.fds:
+            fd += 1
+        self.fs.fds[fd] = self
+        return fd
 
 
 class SimBrowser:
@@ -195,6 +235,7 @@ class SimWorld:
         self.epoch = 0
         self.io_seq = 0
         self.handles = []
+        self.fds = {}
         self.bytes_written = 0
         self.now = float(t0)
         self.sim_elapsed = 0.0
@@ -280,6 +321,8 @@ class SimWorld:
                 self.crashed = True
                 self.epoch += 1
                 raise SimCrash()
+            if k == "interrupt":
+                raise SimInterrupt()
             if k == "eio_write":
                 return ("partial", int(f.get("k", 0)), errno.EIO)
             if k == "enospc_write":
@@ -306,6 +349,22 @@ class SimWorld:
     # ---- the file-system calls ---------------------------------------------------------------------
     def open(self, file, mode="r", buffering=-1, encoding=None, errors=None, newline=None,
              closefd=True, opener=None):
+        if isinstance(file, int) and file in self.fds:
+            return self.fdopen(file, mode, buffering, encoding, errors, newline, closefd)
+        if opener is not None and not isinstance(file, int) and self.resolve(file) is not None:
+            mm = set(mode)
+            fl = os.O_RDWR if "+" in mm else (os.O_RDONLY if "r" in mm else os.O_WRONLY)
+            if "w" in mm:
+                fl |= os.O_CREAT | os.O_TRUNC
+            elif "a" in mm:
+                fl |= os.O_CREAT | os.O_APPEND
+            elif "x" in mm:
+                fl |= os.O_CREAT | os.O_EXCL
+            fd = opener(file, fl)
+            if fd in self.fds:
+                f = self.fdopen(fd, mode, buffering, encoding, errors, newline, closefd)
+                return f
+            return _REAL["open"](fd, mode, buffering, encoding, errors, newline, closefd)
         p = self.resolve(file) if not isinstance(file, int) else None
         if p is None:
             if self.active and not isinstance(file, int) and any(c in mode for c in "wax+"):
@@ -454,6 +513,122 @@ class SimWorld:
             return _REAL["access"](path, mode, **kw)
         return p in self.files or p in self.dirs
 
+    # ---- low-level descriptor API (os.open / os.fdopen / os.write ...) ------------------------------------
+    def os_open(self, path, flags, mode=0o777, *, dir_fd=None):
+        p = self.resolve(path)
+        if p is None:
+            if self.active and (flags & (os.O_WRONLY | os.O_RDWR | os.O_CREAT | os.O_TRUNC | os.O_APPEND)):
+                raise HarnessError("real os.open for writing attempted during a simulated operation: %r" % (path,))
+            return _REAL["os_open"](path, flags, mode, dir_fd=dir_fd)
+        acc = flags & (os.O_WRONLY | os.O_RDWR)
+        writing = acc in (os.O_WRONLY, os.O_RDWR)
+        reading = acc in (os.O_RDONLY, os.O_RDWR)
+        self.event("open_w" if (writing or flags & os.O_CREAT) else "open_r", p)
+        if p in self.dirs:
+            if writing:
+                raise IsADirectoryError(errno.EISDIR, "Is a directory", p)
+            raise HarnessError("os.open of a simulated directory is not implemented")
+        if posixpath.dirname(p) not in self.dirs:
+            raise FileNotFoundError(errno.ENOENT, "No such file or directory", p)
+        node = self.files.get(p)
+        if node is None:
+            if not flags & os.O_CREAT:
+                raise FileNotFoundError(errno.ENOENT, "No such file or directory", p)
+            node = self.files[p] = Node()
+            node.gen += 1
+        elif (flags & os.O_CREAT) and (flags & os.O_EXCL):
+            raise FileExistsError(errno.EEXIST, "File exists", p)
+        if (flags & os.O_TRUNC) and writing:
+            del node.data[:]
+            node.gen += 1
+        raw = SimRaw(self, p, node, reading, writing, bool(flags & os.O_APPEND))
+        fd = FD_BASE + len(self.fds) + 1
+        while fd in self.fds:
+            fd += 1
+        self.fds[fd] = raw
+        return fd
+
+    def _fd(self, fd):
+        return self.fds.get(fd) if isinstance(fd, int) else None
+
+    def fdopen(self, fd, mode="r", buffering=-1, encoding=None, errors=None, newline=None, closefd=True,
+               opener=None):
+        raw = self._fd(fd)
+        if raw is None:
+            return _REAL["fdopen"](fd, mode, buffering, encoding, errors, newline, closefd, opener)
+        del self.fds[fd]                      # ownership moves to the file object
+        m = set(mode)
+        binary = "b" in m
+        wr = bool(m & set("wax+"))
+        if binary and buffering == 0:
+            return raw
+        bs = self.bufsize if buffering in (-1, 1) or buffering is None else buffering
+        if "+" in m:
+            buf = io.BufferedRandom(raw, bs)
+        elif wr:
+            buf = io.BufferedWriter(raw, bs)
+        else:
+            buf = io.BufferedReader(raw, max(bs, 16))
+        if binary:
+            return buf
+        t = io.TextIOWrapper(buf, encoding or "utf-8", errors, newline, line_buffering=(buffering == 1))
+        try:
+            t._CHUNK_SIZE = max(1, int(self.chunk))
+        except Exception:
+            pass
+        t.mode = mode
+        return t
+
+    def os_close(self, fd):
+        raw = self._fd(fd)
+        if raw is None:
+            return _REAL["os_close"](fd)
+        del self.fds[fd]
+        raw.close()
+
+    def os_write(self, fd, data):
+        raw = self._fd(fd)
+        if raw is None:
+            return _REAL["os_write"](fd, data)
+        return raw.write(data)
+
+    def os_read(self, fd, n):
+        raw = self._fd(fd)
+        if raw is None:
+            return _REAL["os_read"](fd, n)
+        b = bytearray(n)
+        k = raw.readinto(b)
+        return bytes(b[:k])
+
+    def fsync(self, fd):
+        if hasattr(fd, "fileno") and not isinstance(fd, int):
+            try:
+                fd = fd.fileno()
+            except Exception:
+                return None
+        raw = self._fd(fd)
+        if raw is None:
+            return _REAL["fsync"](fd)
+        self.event("fsync", raw.path)
+
+    def ftruncate(self, fd, length):
+        raw = self._fd(fd)
+        if raw is None:
+            return _REAL["ftruncate"](fd, length)
+        raw.truncate(length)
+
+    def lseek(self, fd, pos, how):
+        raw = self._fd(fd)
+        if raw is None:
+            return _REAL["lseek"](fd, pos, how)
+        return raw.seek(pos, how)
+
+    def fstat(self, fd):
+        raw = self._fd(fd)
+        if raw is None:
+            return _REAL["fstat"](fd)
+        return os.stat_result((statmod.S_IFREG | 0o644, 2, 1, 1, 0, 0, len(raw.node.data), 0, 0, 0))
+
     # ---- clock ----------------------------------------------------------------------------------------
     def time(self):
         return self.now
@@ -482,6 +657,20 @@ class SimWorld:
         os.rename = self.replace
         os.rmdir = self.rmdir
         os.access = self.access
+        os.open = self.os_open
+        os.fdopen = self.fdopen
+        os.close = self.os_close
+        os.write = self.os_write
+        os.read = self.os_read
+        os.fsync = self.fsync
+        os.ftruncate = self.ftruncate
+        os.lseek = self.lseek
+        os.fstat = self.fstat
+        import tempfile
+        self._saved_tempdir = tempfile.tempdir
+        tempfile.tempdir = self.tmp          # tempfile.gettempdir()/mkstemp()/NamedTemporaryFile land in SimFS
+        self._saved_names = getattr(tempfile, "_name_sequence", None)
+        tempfile._name_sequence = _DetNames()   # temp names are random in CPython: a seam, or replay breaks
         webbrowser.get = lambda using=None: SimBrowser(self)
         for mod in modules:
             for name, repl in (("time", self.time), ("gettempdir", lambda: self.tmp)):
@@ -506,6 +695,18 @@ class SimWorld:
         os.rename = _REAL["rename"]
         os.rmdir = _REAL["rmdir"]
         os.access = _REAL["access"]
+        os.open = _REAL["os_open"]
+        os.fdopen = _REAL["fdopen"]
+        os.close = _REAL["os_close"]
+        os.write = _REAL["os_write"]
+        os.read = _REAL["os_read"]
+        os.fsync = _REAL["fsync"]
+        os.ftruncate = _REAL["ftruncate"]
+        os.lseek = _REAL["lseek"]
+        os.fstat = _REAL["fstat"]
+        import tempfile
+        tempfile.tempdir = self._saved_tempdir
+        tempfile._name_sequence = self._saved_names
         webbrowser.get = _REAL["webbrowser_get"]
         for mod, name, val in self._saved_mod:
             setattr(mod, name, val)
@@ -523,3 +724,4 @@ class SimWorld:
         """After a crash: every open handle belongs to the dead process."""
         self.epoch += 1
         self.handles = []
+        self.fds = {}
